@@ -283,4 +283,80 @@ theorem C15_probe_sane :
     "debug_marker" ∉ ChamVerif.Gen.cacheInfluencing ∧ "debug_marker" ∉ ChamVerif.Gen.cacheKeyed ∧
     "encoding" ∉ ChamVerif.Gen.cacheInfluencing := by decide +kernel
 
+/-! ## the source text in the key -/
+
+/-- the byte classes of UTF-8: what the first byte of `utf8 c` says about `c` -/
+theorem utf8_cases (c : Nat) (hc : c < 0x110000) :
+    (c < 0x80 ∧ utf8 c = [c]) ∨
+    (0x80 ≤ c ∧ c < 0x800 ∧ utf8 c = [0xC0 + c / 64, 0x80 + c % 64]) ∨
+    (0x800 ≤ c ∧ c < 0x10000 ∧ utf8 c = [0xE0 + c / 4096, 0x80 + (c / 64) % 64, 0x80 + c % 64]) ∨
+    (0x10000 ≤ c ∧ utf8 c = [0xF0 + c / 262144, 0x80 + (c / 4096) % 64, 0x80 + (c / 64) % 64, 0x80 + c % 64]) := by
+  unfold utf8
+  by_cases h1 : c < 0x80
+  · left; exact ⟨h1, by simp [h1]⟩
+  · by_cases h2 : c < 0x800
+    · right; left; exact ⟨by omega, h2, by simp [h1, h2]⟩
+    · by_cases h3 : c < 0x10000
+      · right; right; left; exact ⟨by omega, h3, by simp [h1, h2, h3]⟩
+      · right; right; right; exact ⟨by omega, by simp [h1, h2, h3]⟩
+
+/-- UTF-8 is prefix-free: the first code point of an encoded text can be read off its bytes -/
+theorem utf8_prefix_free (a b : Nat) (x y : List Nat) (ha : a < 0x110000) (hb : b < 0x110000)
+    (h : utf8 a ++ x = utf8 b ++ y) : a = b ∧ x = y := by
+  rcases utf8_cases a ha with ⟨a1, ea⟩ | ⟨a1, a2, ea⟩ | ⟨a1, a2, ea⟩ | ⟨a1, ea⟩ <;>
+  rcases utf8_cases b hb with ⟨b1, eb⟩ | ⟨b1, b2, eb⟩ | ⟨b1, b2, eb⟩ | ⟨b1, eb⟩ <;>
+  rw [ea, eb] at h <;>
+  simp only [List.cons_append, List.nil_append, List.cons.injEq] at h
+  -- 16 cases: the 4 diagonal ones give a = b, the others contradict the first byte
+  all_goals first
+    | (obtain ⟨h1, h2⟩ := h; exact ⟨by omega, h2⟩)
+    | (obtain ⟨h1, h2, h3⟩ := h; exact ⟨by omega, h3⟩)
+    | (obtain ⟨h1, h2, h3, h4⟩ := h; exact ⟨by omega, h4⟩)
+    | (obtain ⟨h1, h2, h3, h4, h5⟩ := h; exact ⟨by omega, h5⟩)
+    | (obtain ⟨h1, _⟩ := h; omega)
+
+/-- **C15 (the source text is keyed faithfully)**: with `surrogatepass` two sources have the same encoded bytes — the
+part of the key that stands for the source — only if they are the same text, lone surrogates included -/
+theorem C15_body_key_injective (s t : List Nat) (hs : ∀ c ∈ s, c < 0x110000) (ht : ∀ c ∈ t, c < 0x110000)
+    (h : encodeBody "surrogatepass" s = encodeBody "surrogatepass" t) : s = t := by
+  induction s generalizing t with
+  | nil =>
+    cases t with
+    | nil => rfl
+    | cons b t' =>
+      simp only [encodeBody, List.flatMap_nil, List.flatMap_cons] at h
+      have : utf8 b ≠ [] := by unfold utf8; split <;> (try split) <;> (try split) <;> simp
+      have h' : (if ("surrogatepass" == "ignore" && isSurrogate b) = true then [] else utf8 b) = utf8 b := by
+        have : ("surrogatepass" == "ignore") = false := by decide
+        simp [this]
+      rw [h'] at h
+      cases hu : utf8 b with
+      | nil => exact absurd hu this
+      | cons u us => rw [hu] at h; cases h
+  | cons a s' ih =>
+    have hmode : ∀ c, (if ("surrogatepass" == "ignore" && isSurrogate c) = true then [] else utf8 c) = utf8 c := by
+      intro c
+      have : ("surrogatepass" == "ignore") = false := by decide
+      simp [this]
+    cases t with
+    | nil =>
+      simp only [encodeBody, List.flatMap_nil, List.flatMap_cons, hmode] at h
+      have : utf8 a ≠ [] := by unfold utf8; split <;> (try split) <;> (try split) <;> simp
+      cases hu : utf8 a with
+      | nil => exact absurd hu this
+      | cons u us => rw [hu] at h; cases h
+    | cons b t' =>
+      simp only [encodeBody, List.flatMap_cons, hmode] at h
+      obtain ⟨hab, hrest⟩ := utf8_prefix_free a b _ _ (hs a (by simp)) (ht b (by simp)) h
+      subst hab
+      congr 1
+      exact ih t' (fun c hc => hs c (by simp [hc])) (fun c hc => ht c (by simp [hc])) (by simpa [encodeBody, hmode] using hrest)
+
+/-- with `ignore` (the code before the fix: finding D-15c) two different sources share their bytes -/
+theorem C15_body_key_ignore_counterexample :
+    encodeBody "ignore" [0x78] = encodeBody "ignore" [0x78, 0xD800] ∧ ([0x78] : List Nat) ≠ [0x78, 0xD800] := by decide
+
+/-- the tie: the `errors` mode observed on the real `digest` in this run is the injective one -/
+theorem C15_body_key_tie : ChamVerif.Gen.digestBodyErrors = "surrogatepass" := by decide
+
 end ChamVerif.Sys.Cache
